@@ -42,6 +42,7 @@ type Engine struct {
 	base     map[string]string // prog|cfg -> hash of baseline
 	skipped  []string
 	tmp      string
+	tmp2     string
 	history  []string // "progIndex|target|opt" of every compilation made by this process, in order
 	seenSite map[int]bool
 	multi    map[int]bool
@@ -87,6 +88,13 @@ func (e *Engine) Setup(tier string) error {
 		e.corpus = append(e.corpus, prog{name: "feature-project", path: dir})
 		e.tmp = dir
 	}
+	// a single-file program with embedded sibling files (written to a temp
+	// directory): several #wa:embed constants in one file, two of the file names
+	// differing only in letter case
+	if dir, err := writeEmbedProgram(); err == nil {
+		e.corpus = append(e.corpus, prog{name: "feature-embed", path: filepath.Join(dir, "embed.wa")})
+		e.tmp2 = dir
+	}
 	// hand-written feature programs: language shapes the examples do not contain
 	for i, src := range featurePrograms {
 		e.corpus = append(e.corpus, prog{name: fmt.Sprintf("feature-%d", i), src: src})
@@ -110,6 +118,9 @@ func (e *Engine) Strides() []int    { return nil }
 func (e *Engine) ShrinkBudget() int { return 250 }
 
 func (e *Engine) Extra() map[string]any {
+	if e.tmp2 != "" {
+		os.RemoveAll(e.tmp2)
+	}
 	if e.tmp != "" {
 		os.RemoveAll(e.tmp)
 	}
@@ -264,6 +275,20 @@ func (e *Engine) Run(t *tape.Tape, keep bool) *sim.Result {
 	var log tape.Log
 	log.Keep = keep
 	pi := t.Draw(len(e.corpus))
+	// one run in four takes one of the hand-written feature programs / the feature
+	// project: they hold the shapes that the examples lack (two draws, always consumed)
+	featPick, featIdx := t.Draw(4), t.Draw(64)
+	if featPick == 3 {
+		var feats []int
+		for i, c := range e.corpus {
+			if strings.HasPrefix(c.name, "feature-") {
+				feats = append(feats, i)
+			}
+		}
+		if len(feats) > 0 {
+			pi = feats[featIdx%len(feats)]
+		}
+	}
 	p := e.corpus[pi]
 	target := targets[t.Pick(5, 3, 1, 1)]
 	opt := t.Draw(3) == 2
@@ -326,6 +351,12 @@ func (e *Engine) Run(t *tape.Tape, keep bool) *sim.Result {
 	b0, ok := e.base[key]
 	if !ok {
 		w1, m1, err := e.compile(p, target, opt, nil)
+		if err != nil && strings.HasPrefix(p.name, "feature-") && target == "" {
+			// the harness's own programs must compile for the default target: a silent
+			// skip here would drop exactly the shapes they were written for
+			res.Trouble = fmt.Sprintf("harness program %s does not compile for the default target: %v", p.name, err)
+			return res
+		}
 		if err != nil {
 			// not a compilable program for this target: nothing to compare
 			e.base[key] = "error"
@@ -716,6 +747,43 @@ func Pad(s: string, n: int) => string {
 	return s
 }
 `,
+}
+
+func writeEmbedProgram() (string, error) {
+	dir, err := os.MkdirTemp("", "verif-c27embed.")
+	if err != nil {
+		return "", err
+	}
+	files := map[string]string{
+		"banner.txt": "lower-case banner",
+		"Banner.txt": "UPPER-CASE BANNER",
+		"notes.md":   "# notes\n",
+		"data.bin":   "\x00\x01\x02\xff binary",
+		"embed.wa": `#wa:embed banner.txt
+const lower: string
+
+#wa:embed Banner.txt
+const upper: string
+
+#wa:embed notes.md
+const notes: string
+
+#wa:embed data.bin
+const blob: string
+
+func main {
+	println(lower)
+	println(upper)
+	println(len(notes), len(blob))
+}
+`,
+	}
+	for name, src := range files {
+		if err := os.WriteFile(filepath.Join(dir, name), []byte(src), 0o644); err != nil {
+			return "", err
+		}
+	}
+	return dir, nil
 }
 
 func writeFeatureProject() (string, error) {
